@@ -30,6 +30,18 @@ func tiflashEnvs(n, replicas int, extra []int) []envSpec {
 	return out
 }
 
+// noJoint: the environments with joint consensus switched off and not supported.
+func noJoint(es []envSpec) []envSpec {
+	var out []envSpec
+	for _, j := range []int{1, 2} {
+		for _, e := range es {
+			e.Joint = j
+			out = append(out, e)
+		}
+	}
+	return out
+}
+
 func scopes() []*scope {
 	one := []int{0}
 	allTypes := append(append([]string(nil), coldTypes...), hotTypes...)
@@ -64,6 +76,14 @@ func scopes() []*scope {
 				genSched(mkEnvs([]int{4}, []int{3}, one, one, 1, plainKinds), schedBounds{types: coldTypes[:7], levels: 2, second: true}),
 				genSched(mkEnvs([]int{5}, []int{3}, one, one, 1, plainKinds), schedBounds{types: coldTypes, levels: 2}))},
 
+		{name: "sched/4stores/1-2replicas/leader-refusing", tiers: "quick",
+			desc: "4 stores of which <=2 refuse leaders (evicted / reject-leader), 1 and 2 replicas, rules {off, on}, 2 load levels, all schedulers: moving the leader's peer leaves no store that accepts the leader",
+			gen: concat(genSched(mkEnvs([]int{4}, []int{1, 2}, []int{0, 1}, one, 2, []int{kEvicted, kReject}), schedBounds{types: coldTypes, levels: 2}),
+				genSched(mkEnvs([]int{4}, []int{1, 2}, []int{0, 1}, one, 2, []int{kEvicted, kReject}), schedBounds{types: hotTypes, levels: 2}))},
+		{name: "no-joint-consensus/4stores", tiers: "quick",
+			desc: "joint consensus switched off (enable-joint-consensus=false) and not supported (feature disabled): 4 stores of which <=1 is offline/down/evicted/reject-leader, 3 replicas, rules {off, on}: scatter histories of <=2 earlier calls, last call in every peer order with every leader; all schedulers on 2 load levels",
+			gen: concat(genScatter(noJoint(mkEnvs([]int{4}, []int{3}, []int{0, 1}, one, 1, plainKinds)), scatterBounds{hist: 2, groups: 1}),
+				genSched(noJoint(mkEnvs([]int{4}, []int{3}, []int{0, 1}, one, 1, plainKinds)), schedBounds{types: allTypes, levels: 2}))},
 		// ------------------------------------------------------------ thorough
 		{name: "scatter/5stores/all-up/hist<=3", tiers: "thorough",
 			desc: "5 up stores, 3 replicas, rules off and on: every sequence of <=3 earlier Scatter calls (every 3-store region, groups g1 g2) followed by Scatter of every 3-store region in every peer order with every leader",
